@@ -146,13 +146,14 @@ class Assembler:
         return self.files[rel]
 
     # ------------------------------------------------------------------
-    def assemble(self, unit_rel, defines=None, vacuity=False):
+    def assemble(self, unit_rel, defines=None, vacuity=False, degrade=None):
         """Returns dict(text, linemap, fns, rewrites, items, hashes, defines)."""
         self.defines = dict(defines or {})
         self.vacuity = vacuity
+        self.degrade = set(degrade or [])
         self.chunks = []
         self.callee = 0
-        self.meta = dict(fns={}, callees={}, rewrites=[], items=[], hashes={}, defines={}, unit=unit_rel)
+        self.meta = dict(fns={}, callees={}, degraded={}, rewrites=[], items=[], hashes={}, defines={}, unit=unit_rel)
         self._include(unit_rel, [])
         # build text + linemap
         text_parts = []
@@ -414,6 +415,45 @@ class Assembler:
 
     # ------------------------------------------------------------------
     def _fn(self, rel, lineno, arg, block):
+        """One function. If a body-level anchor of its contract is lost (or the caller asked to degrade it because its body does not compile
+        under Verus), the function is emitted like a callee - signature and contract only - and recorded as `degraded`: it is NOT verified in
+        this run (undecided for its properties), but the other functions of the unit still are."""
+        f0, loc0 = arg.split(None, 1)
+        key0 = '%s::%s' % (f0, norm(loc0).replace(' ', ''))
+        mark = len(self.chunks)
+        nrw = len(self.meta['rewrites'])
+        if not self.callee and key0 not in self.degrade:
+            try:
+                return self._fn_inner(rel, lineno, arg, block)
+            except LostAnchor as e:
+                if 'fns for locator' in str(e) or 'impl blocks' in str(e) or 'missing source' in str(e) or 'items `' in str(e):
+                    raise
+                del self.chunks[mark:]
+                del self.meta['rewrites'][nrw:]
+                self.meta['fns'].pop(key0, None)
+                reason = str(e)
+        elif not self.callee:
+            reason = 'body outside the verifier\'s subset (compile error inside this function)'
+        else:
+            return self._fn_inner(rel, lineno, arg, block)
+        self.callee += 1
+        try:
+            self._fn_inner(rel, lineno, arg, block)
+        finally:
+            self.callee -= 1
+        info = self.meta['callees'].pop(key0, None)
+        props = []
+        for (no, ln) in block:
+            if ln.strip().startswith('//@ props'):
+                props = ln.split()[2:]
+        tags = set(props)
+        for (no, ln) in block:
+            t = parse_tags(ln)
+            if t:
+                tags.update(t['props'])
+        self.meta['degraded'][key0] = dict(key=key0, reason=reason, props=sorted(tags), contract=dict(file=rel, line=lineno))
+
+    def _fn_inner(self, rel, lineno, arg, block):
         f, locator = arg.split(None, 1)
         sf = self.source(f)
         it = sf.find_fn(locator)
